@@ -24,5 +24,5 @@ Theorem k__jitfix_iset_safe : forall args, Pre__jitfix_iset args ->
   forall fuel, safe_outcome (run fuel k__jitfix_iset args).
 Proof.
   intros args (d1 & d2 & s & e & -> & H) fuel.
-  safe_start k__jitfix_iset ann__jitfix_iset. vc.
+  safe_start k__jitfix_iset ann__jitfix_iset. vc k__jitfix_iset ann__jitfix_iset.
 Qed.
